@@ -116,7 +116,11 @@ class Net:
             tens_buf = []
             for t in net.tensors:
                 if t.data is not None:
-                    buf_data.append(t.data.tobytes())
+                    raw = t.data.tobytes()
+                    if getattr(self, "dedupe_buffers", False) and raw in buf_data:
+                        tens_buf.append(buf_data.index(raw))      # equal constants share one buffer, as the converter writes them
+                        continue
+                    buf_data.append(raw)
                     tens_buf.append(len(buf_data) - 1)
                 else:
                     buf_data.append(None)  # one (empty) buffer per tensor like the TFLite converter
@@ -595,7 +599,7 @@ SINGLE_KINDS = ["conv", "dw", "fc", "maxpool", "avgpool", "add", "sub", "mul", "
                 "concat_hw", "pad_conv", "fc_batch", "tconv_var", "resize_x", "ew_rank", "conv_big_kernel", "pool_then_ew",
                 "splitv", "slice_op", "unpack_pack", "sqdiff", "argmax", "quant_chain",
                 "mean_big", "pad_pool", "slice_masks", "dw_mult", "conv_1d", "exp", "rsqrt", "conv_groups", "pool_global_stride", "shape_op",
-                "ew_self", "concat_dup", "ew_bcast2", "split_partial", "reshape_fan"]
+                "ew_self", "concat_dup", "ew_bcast2", "split_partial", "reshape_fan", "resize_hp16"]
 
 
 def fam_single_op(rng, kind=None):
@@ -988,6 +992,11 @@ def fam_single_op(rng, kind=None):
             alpha = net.tensor(ashape, x.dtype, a_sc, a_zp, codes.reshape(ashape), name="prelu_alpha")
             y = net.tensor(list(x.shape), x.dtype, _rs(rng, 0.01, 0.3) if rng.random() < 0.7 else x.scale, _zp(rng, x.dtype))
             net.op("PRELU", [x, alpha], [y], {})
+        elif kind == "resize_hp16":
+            # x2 bilinear resize with half-pixel centres behind an NPU operator: four depthwise convolutions whose IFM is
+            # addressed through hand-made tile bases (TILE padding), with channel counts on and off the 16-channel brick
+            x.shape[1], x.shape[2], x.shape[3] = rng.choice([3, 5, 6, 7]), rng.choice([3, 5, 6, 7]), rng.choice([16, 32, 16, 48, 8, 24])
+            y = resize(net, rng, pool(net, rng, x, "MAX_POOL_2D", (1, 1), (1, 1), "VALID"), "RESIZE_BILINEAR", 2, align=False, half=True)
         elif kind == "ew_self":
             # both operands are the same tensor
             if rng.random() < 0.5:
@@ -1361,7 +1370,7 @@ def fam_mixed_exact(rng):
 UNSUPPORTED_KINDS = ["rank5", "rank0", "batch", "big_stride", "big_kernel", "int32_add", "float", "dyn_weights",
                      "big_dim", "no_quant", "dilation", "int16_pool", "bool", "per_axis_fc", "pool_stride4", "dw_stride4",
                      "dyn_reshape", "dyn_pad", "dyn_mean", "dyn_transpose", "dyn_slice", "dyn_resize", "dyn_split", "dyn_splitv",
-                     "tconv_s3", "fc_dynw"]
+                     "tconv_s3", "fc_dynw", "ew_widen16", "ew_widen32", "ew_narrow", "pad_shared_tensor", "pad_shared_buffer"]
 
 
 def fam_unsupported(rng, kind=None):
@@ -1394,6 +1403,35 @@ def fam_unsupported(rng, kind=None):
     elif kind == "big_kernel":
         x = _inp(net, rng, [1, 70, 70, 2], dt)
         y = conv2d(net, rng, x, 2, (rng.choice([65, 8]), rng.choice([65, 9])), (1, 1), (1, 1), "SAME")
+    elif kind in ("pad_shared_tensor", "pad_shared_buffer"):
+        # a PAD for the NPU (channel and height / width padding in one operator) and a MIRROR_PAD for the CPU with equal
+        # paddings: one constant tensor read by both, or two constant tensors on one buffer
+        shp = [1, rng.choice([4, 6]), rng.choice([4, 5]), rng.choice([4, 8])]
+        x = _inp(net, rng, shp, "int8")
+        pv = [[0, 0], [1, 1], [rng.choice([1, 2]), 1], [0, rng.choice([2, 4])]]
+        pt_ = net.tensor([4, 2], "int32", None, None, pv, name="paddings")
+        pt2 = pt_ if kind == "pad_shared_tensor" else net.tensor([4, 2], "int32", None, None, pv, name="mirror_paddings")
+        net.dedupe_buffers = True
+        oshp = [d + a + b_ for d, (a, b_) in zip(shp, pv)]
+        p1 = net.tensor(oshp, "int8", x.scale, x.zp)
+        net.op("PAD", [x, pt_], [p1], {})
+        p2 = net.tensor(oshp, "int8", x.scale, x.zp)
+        net.op("MIRROR_PAD", [x, pt2], [p2], dict(Mode=rng.choice([0, 1])))
+        net.output(p2)
+        y = p1
+    elif kind in ("ew_widen16", "ew_widen32", "ew_narrow"):
+        # an elementwise operator whose result type differs from its operand type, between two NPU operators
+        it, ot = {"ew_widen16": ("int8", "int16"), "ew_widen32": ("int8", "int32"), "ew_narrow": ("int16", "int8")}[kind]
+        shp = rng.choice([[1, 4, 4, 8], [1, 8, 8, 16], [1, 1, 1, 32]])
+        x = _inp(net, rng, shp, it)
+        y0 = elementwise(net, rng, "ADD", x, const_like(net, rng, shp, it))
+        ek = rng.choice(["ADD", "ADD", "SUB", "MUL", "MAXIMUM"])
+        m = net.tensor(list(shp), ot, _rs(rng, 0.01, 0.3) if ot != "int32" else None, 0 if ot != "int32" else None)
+        net.op(ek, [y0, const_like(net, rng, shp, it)], [m], {} if ek == "MAXIMUM" else dict(FusedActivationFunction=0))
+        c2 = net.tensor(list(shp), ot, _rs(rng, 0.01, 0.3) if ot != "int32" else None, 0 if ot != "int32" else None,
+                        np.random.RandomState(rng.getrandbits(31)).randint(-100, 100, shp))
+        y = net.tensor(list(shp), ot, m.scale, m.zp)
+        net.op("ADD", [m, c2], [y], dict(FusedActivationFunction=0))
     elif kind == "int32_add":
         x = net.input([1, 4, 4, 8], "int32", None, None, name="input0")
         y = net.tensor([1, 4, 4, 8], "int32")
@@ -2257,6 +2295,39 @@ def fam_rewrite_patterns(rng, kind=None):
 
 
 FAMILIES["rewrite_patterns"] = fam_rewrite_patterns
+
+
+def fam_cpu_fan(rng):
+    """C01 / C03 / C12: a tensor produced by a CPU operator is read by one elementwise NPU operator that could work in place
+    (same shape, type and quantisation) and by CPU operators that run after it; outputs are the NPU result and the CPU
+    readers' results - the NPU operator must not overwrite what the CPU still reads"""
+    net = Net("cpu_fan")
+    dt = rng.choice(["int8", "int8", "uint8"])
+    shp = [1, rng.randrange(2, 10), rng.randrange(2, 10), rng.choice([4, 8, 16])]
+    x = _inp(net, rng, shp, dt)
+    t = x
+    if rng.random() < 0.5:
+        t = unary(net, rng, "RELU", t)
+    xc = cpu_only(net, rng, t, rng.choice(["CUSTOM", "FLOAT_ROUNDTRIP", "L2_NORMALIZATION"]))
+    ek = rng.choice(["MAXIMUM", "MINIMUM", "RELU", "ADD", "MUL"])
+    if ek == "RELU":
+        y = unary(net, rng, rng.choice(["RELU", "RELU6"]), xc)
+    else:
+        y = elementwise(net, rng, ek, xc, const_like(net, rng, rng.choice([shp, [1, 1, 1, shp[3]]]), dt, xc.scale, xc.zp))
+        if rng.random() < 0.6:
+            y.scale, y.zp = xc.scale, xc.zp
+    outs = [y]
+    for _ in range(rng.choice([1, 1, 1, 2])):
+        outs.append(cpu_only(net, rng, xc, rng.choice(["CUSTOM", "FLOAT_ROUNDTRIP", "L2_NORMALIZATION"])))
+    if rng.random() < 0.2:
+        outs.append(xc)
+    if rng.random() < 0.4:
+        outs[0] = unary(net, rng, "RELU", y)
+    net.output(*outs)
+    return net
+
+
+FAMILIES["cpu_fan"] = fam_cpu_fan
 
 
 def generate(family, seed):
